@@ -59,3 +59,9 @@ add('C15', 'property-based testing: metamorphic relation between a canonical and
     'that raises is a difference. Covers all aliases, ":" separators, dropped ";"/head, precedence/associativity of every binary and prefix operator, unless sugar and the LTL front end.',
     'Trusted: vlib/spell.py precedence table (transcribed from the order of the grammar alternatives) and vlib/lang.py recogniser used to validate the printed variant.',
     'DESIGN.md section 5 C15')
+add('C11', 'property-based testing: validity predicates over generated call histories (argument deep-compare, repeat, interleaved objects) and a differential run under several PYTHONHASHSEED values (Hypothesis)',
+    'Every argument of evaluate()/update() is deep-copied and compared after the call on all four monitor kinds (padding path forced); an offline object is re-evaluated '
+    'A,B,A; two or three objects of mixed kinds are interleaved under a generated schedule and compared with solo runs; a generated batch is re-run in sub-processes '
+    'with four hash seeds and compared byte-wise.',
+    'Trusted: Python structural equality; hash-seed independence is sampled (4 seeds, one batch per run).',
+    'DESIGN.md section 5 C11')
